@@ -16,6 +16,8 @@ size.  CO: every commutative group with a scalar action and every KDF.  RSA:
 every modulus and exponent pair satisfying the RSA key relation.
 -/
 import MpcVerif.Proofs.Iknp
+import MpcVerif.Proofs.Cot
+import MpcVerif.Proofs.CoRsa
 
 namespace Mpc
 open Mpc.Iknp
@@ -181,5 +183,150 @@ example : ∀ c ∈ [Call.labels true #[true, false, true] 0#128 0#128, Call.bit
   · trivial
   · show (64 + 63) / 64 ≤ (#[5#64] : Words).size
     decide
+
+/-! ## COT / ROT over IKNP with MITCCRH -/
+
+open Mpc.Cot in
+/-- `cot_delivers`: for every block cipher `π` (every AES), seed, batch size
+`n = flags.size` (every tail mod 8; stale pad entries of a short last batch
+included) and every pair of IKNP outputs that are correlated
+(`result_j = data_j xor choice_j*Delta`, which is `C06_iknp_label_corr`), the
+batch loop of `COT.Send` terminates without error, `COT.Receive` reads exactly
+the labels sent and ends with the sender's label selected by the choice bit at
+every position. -/
+theorem C06_cot_delivers (π : Label → Label → Label) (delta seed : Label) (data result : Array Label)
+    (wires : Array Cot.Wire) (flags : Array Bool) (hw : wires.size = flags.size) (hr : result.size = flags.size)
+    (hcorr : ∀ j, j < flags.size →
+      lget result j = lget data j ^^^ (if flags.getD j false then delta else 0#128)) :
+    ∃ cts, cotSend π delta seed data wires = some cts ∧
+      ∃ out, cotRecv π seed flags result cts = some out ∧ out.size = flags.size ∧
+        ∀ j, j < flags.size → lget out j = if flags.getD j false then (wget wires j).2 else (wget wires j).1 :=
+  Cot.cot_delivers π delta seed data result wires flags hw hr hcorr
+
+example : ∃ (data result : Array Label) (flags : Array Bool) (delta : Label),
+    result.size = flags.size ∧ flags.size = 3 ∧
+    ∀ j, j < flags.size → Cot.lget result j = Cot.lget data j ^^^ (if flags.getD j false then delta else 0#128) :=
+  ⟨#[1#128, 2#128, 3#128], #[1#128, 2#128 ^^^ 7#128, 3#128], #[false, true, false], 7#128, rfl, rfl, by decide⟩
+
+open Mpc.Cot in
+/-- `rot_consistent`: random OT — the receiver's output is the sender's output
+wire label selected by the choice bit, for every batch size. -/
+theorem C06_rot_consistent (π : Label → Label → Label) (delta seed : Label) (data result : Array Label)
+    (wires : Array Cot.Wire) (flags : Array Bool) (hw : wires.size = flags.size) (hr : result.size = flags.size)
+    (hcorr : ∀ j, j < flags.size →
+      lget result j = lget data j ^^^ (if flags.getD j false then delta else 0#128)) :
+    ∃ w out, rotSend π delta seed data wires = some w ∧ rotRecv π seed flags result = some out ∧
+      w.size = flags.size ∧ out.size = flags.size ∧
+      ∀ j, j < flags.size → lget out j = if flags.getD j false then (wget w j).2 else (wget w j).1 :=
+  Cot.rot_consistent π delta seed data result wires flags hw hr hcorr
+
+open Mpc.Cot in
+/-- COT end to end, both adversary modes (`mal`), on any in-step pair: the
+IKNP phase (`runCall`) followed by the MITCCRH phase delivers the chosen label
+at every position, and the pair is in step again afterwards — so the statement
+applies to every later batch on the same initialised instance (shared mode
+re-initialisation does not touch the streams). -/
+theorem C06_cot_end_to_end (π : Label → Label → Label) (R0 R1 SS : Nat → Nat → Byte) (delta seed : Label)
+    (hb : BaseOK R0 R1 SS delta) (rs : RecvSt) (ss : SendSt) (hs : InStep rs ss) (mal : Bool) (b0 b1 : Label)
+    (wires : Array Cot.Wire) (flags : Array Bool) (hw : wires.size = flags.size) :
+    ∃ rs' ss' o u, runCall R0 R1 SS delta rs ss (.labels mal flags b0 b1) = some (rs', ss', o, u) ∧ InStep rs' ss' ∧
+      ∃ cts, cotSend π delta seed o.sentL.toArray wires = some cts ∧
+        ∃ out, cotRecv π seed flags o.rcvdL.toArray cts = some out ∧ out.size = flags.size ∧
+          ∀ j, j < flags.size → lget out j = if flags.getD j false then (wget wires j).2 else (wget wires j).1 := by
+  obtain ⟨rs', ss', o, u, h1, h2, h3⟩ := call_ok R0 R1 SS delta hb rs ss hs (.labels mal flags b0 b1) trivial
+  obtain ⟨_, hl, hc⟩ := h3
+  refine ⟨rs', ss', o, u, h1, h2, ?_⟩
+  apply Cot.cot_delivers π delta seed _ _ wires flags hw (by simpa using hl)
+  intro j hj
+  rw [lget_toArray, lget_toArray]
+  exact hc j hj
+
+open Mpc.Cot in
+/-- ROT end to end, both adversary modes. -/
+theorem C06_rot_end_to_end (π : Label → Label → Label) (R0 R1 SS : Nat → Nat → Byte) (delta seed : Label)
+    (hb : BaseOK R0 R1 SS delta) (rs : RecvSt) (ss : SendSt) (hs : InStep rs ss) (mal : Bool) (b0 b1 : Label)
+    (wires : Array Cot.Wire) (flags : Array Bool) (hw : wires.size = flags.size) :
+    ∃ rs' ss' o u, runCall R0 R1 SS delta rs ss (.labels mal flags b0 b1) = some (rs', ss', o, u) ∧ InStep rs' ss' ∧
+      ∃ w out, rotSend π delta seed o.sentL.toArray wires = some w ∧
+        rotRecv π seed flags o.rcvdL.toArray = some out ∧ w.size = flags.size ∧ out.size = flags.size ∧
+        ∀ j, j < flags.size → lget out j = if flags.getD j false then (wget w j).2 else (wget w j).1 := by
+  obtain ⟨rs', ss', o, u, h1, h2, h3⟩ := call_ok R0 R1 SS delta hb rs ss hs (.labels mal flags b0 b1) trivial
+  obtain ⟨_, hl, hc⟩ := h3
+  refine ⟨rs', ss', o, u, h1, h2, ?_⟩
+  apply Cot.rot_consistent π delta seed _ _ wires flags hw (by simpa using hl)
+  intro j hj
+  rw [lget_toArray, lget_toArray]
+  exact hc j hj
+
+/-! ## Chou-Orlandi in an abstract commutative group -/
+
+/-- `co_delivers`, group part: for every commutative group with scalar action,
+generator `g`, sender scalar `a`, receiver scalar `b` and choice bit `c`, the
+sender's mask point for message `c` equals the receiver's:
+`a•(b•g + c•A) − c•(a•A) = b•A` with `A = a•g`. -/
+theorem C06_co_masks_agree {G : Type} (Γ : Co.Group G) (g : G) (a b : Nat) (bit : Bool) :
+    (let s := Co.senderSetup Γ g a
+     let B := Γ.smul s.a (Co.choicePoint Γ g s.A b bit)
+     if bit then Γ.add B s.AaInv else B) = Γ.smul b (Co.senderSetup Γ g a).A :=
+  Co.masks_agree Γ g a b bit
+
+/-- `co_delivers`: `DecryptCOCiphertexts ∘ EncryptCOCiphertexts ∘ BuildCOChoices`
+returns the chosen label at every index, for every group, every KDF (the mask
+of index `i` is `kdf point i`: per-index domain separation), every `n`, all
+scalars and choice bits, provided no point is rejected by the on-curve check
+(`valid`; on P-256 this excludes only `b_i = 0`-type events of probability
+about 2⁻²⁵⁶, which make the real code return `ErrPointNotOnCurve`). -/
+theorem C06_co_delivers {G : Type} (Γ : Co.Group G) (valid : G → Bool) (kdf : G → Nat → Label) (g : G) (a n : Nat)
+    (scalars : Nat → Nat) (bits : Nat → Bool) (wires : Nat → Co.Wire)
+    (hA : valid (Γ.smul a g) = true)
+    (hP : ∀ i, i < n → valid (Co.choicePoint Γ g (Γ.smul a g) (scalars i) (bits i)) = true) :
+    ∃ cts, Co.encrypt Γ valid kdf (Co.senderSetup Γ g a) n
+        (fun i => Co.choicePoint Γ g (Co.senderSetup Γ g a).A (scalars i) (bits i)) wires = some cts ∧
+      cts.length = n ∧
+      (Co.decrypt Γ kdf (Co.senderSetup Γ g a).A n scalars bits cts).length = n ∧
+      ∀ i, i < n → (Co.decrypt Γ kdf (Co.senderSetup Γ g a).A n scalars bits cts).getD i 0#128 =
+        if bits i then (wires i).2 else (wires i).1 :=
+  Co.delivers Γ valid kdf g a n scalars bits wires hA hP
+
+/-- Non-vacuity: the integers mod 7 under addition are such a group. -/
+def zmod7 : Co.Group (Fin 7) where
+  add a b := a + b
+  neg a := -a
+  zero := 0
+  smul n a := Fin.ofNat 7 n * a
+  add_assoc := by decide
+  add_comm := by decide
+  add_zero := by decide
+  add_neg := by decide
+  smul_add := by intro n a b; generalize Fin.ofNat 7 n = m; revert m a b; decide
+  smul_comm := by intro m n a; generalize Fin.ofNat 7 n = x; generalize Fin.ofNat 7 m = y; revert x y a; decide
+
+example : ∃ (Γ : Co.Group (Fin 7)) (valid : Fin 7 → Bool), valid (Γ.smul 3 1) = true ∧
+    valid (Co.choicePoint Γ 1 (Γ.smul 3 1) 2 true) = true :=
+  ⟨zmod7, fun x => x != 0, by decide, by decide⟩
+
+/-! ## RSA OT -/
+
+/-- `rsa_delivers`, key part: with `v = (x_b + k^e mod N) mod N` the sender's
+`k_b = ((v − x_b) mod N)^d mod N` is the receiver's blinding value `k`, for
+every `x_b` (also `x_b ≥ N` and `v < x_b`), given the RSA key relation
+`(c^e)^d ≡ c (mod N)` for all `c < N`. -/
+theorem C06_rsa_key_recovered (N e d xb k : Nat) (hk : k < N)
+    (hkey : ∀ c, c < N → (c ^ e % N) ^ d % N = c) :
+    RsaOt.senderKey N d (RsaOt.receiverV N e xb k) xb = k :=
+  RsaOt.key_recovered N e d xb k hk hkey
+
+/-- `rsa_delivers`: one transfer returns the chosen message, given the key
+relation and the pad/unpad round trip of the message framing (`dec ∘ enc = id`,
+PKCS#1 block type 1 in the code); only the chosen blinded message is unpadded. -/
+theorem C06_rsa_delivers {M : Type} (N e d : Nat) (enc : M → Nat) (dec : Int → Option M)
+    (x0 x1 k : Nat) (bit : Bool) (m0 m1 : M) (hk : k < N)
+    (hkey : ∀ c, c < N → (c ^ e % N) ^ d % N = c)
+    (hround : ∀ m, dec (enc m : Int) = some m) :
+    RsaOt.transfer N e d enc dec x0 x1 k bit m0 m1 = some (if bit then m1 else m0) :=
+  RsaOt.delivers N e d enc dec x0 x1 k bit m0 m1 hk hkey hround
+
+/-- Non-vacuity: N = 33 = 3·11, e = 3, d = 7 satisfies the key relation. -/
+example : ∀ c, c < 33 → (c ^ 3 % 33) ^ 7 % 33 = c := by decide
 
 end Mpc
